@@ -3,17 +3,17 @@ package main
 import (
 	"bytes"
 	"compress/gzip"
+	"encoding/xml"
+	"errors"
+	"fmt"
 	"io"
 	"os"
 	"path/filepath"
 	"reflect"
-	"encoding/xml"
-	"errors"
-	"fmt"
 	"runtime"
-	"sync/atomic"
 	"strconv"
 	"strings"
+	"sync/atomic"
 	"time"
 
 	"github.com/stevenh/tracktools/pkg/laptimer"
